@@ -34,7 +34,7 @@ func profileByName(name string) Profile {
 			p.Keys = append(p.Keys, fmt.Sprintf("k%02d", (i*29)%48))
 		}
 		p.Txs, p.OpsMin, p.OpsMax = 30, 2, 6
-		p.Segs = []int{300, 400, 100000}
+		p.Segs = []int{300, 400, 800}
 		p.Oversize, p.Abort, p.ReadOnly, p.DoneCalls = 0, 5, 15, 0
 	case "scan":
 		// many tombstones / expired keys inside scanned ranges, dense key space
@@ -122,7 +122,7 @@ func profileByName(name string) Profile {
 		p.OpsMin, p.OpsMax = 8, 22
 		p.Txs = 6
 		p.Oversize, p.Abort, p.ReadOnly, p.DoneCalls = 0, 5, 5, 0
-		p.Segs = []int{400, 1000, 100000}
+		p.Segs = []int{400, 1000, 3000}
 	case "raw":
 		// transactions that read, pop or validate structures they already modified (C13)
 		p.WKV, p.WList, p.WSet, p.WZSet = 2, 3, 2, 3
@@ -207,7 +207,7 @@ func suitePages(seed uint64, n int, work string) {
 	keys := []string{"k0", "k1", "k10", "k2", "k3", "l", "k"}
 	for i := 0; i < n; i++ {
 		r := root.Fork()
-		open := optLine(r.Intn(2), r.Intn(2), r.Intn(2), r.Intn(2), []int{200, 400, 100000}[r.Intn(3)])
+		open := optLine(r.Intn(2), r.Intn(2), r.Intn(2), r.Intn(2), []int{200, 400, 2000}[r.Intn(3)])
 		emit("#H %d %s", i, open)
 		st.run("reset")
 		st.run(open)
